@@ -616,6 +616,21 @@ func (x *Exec) evalCall(fr *frame, st *State, n *ast.CallExpr, opts *evalOpts) V
 		x.forceInline = true
 		defer func() { x.forceInline = save }()
 		return x.evalExpr(fr, st, n.Args[0], opts)
+	case "iter":
+		// iter(N): the hidden counter of range loop N of the current function
+		k := int(arg(0).(Untyped).V.(*big.Int).Int64())
+		for _, li := range fr.loops {
+			if li.ordinal == k {
+				for _, in := range li.header.Instrs {
+					if phi, ok := in.(*ssa.Phi); ok && strings.HasPrefix(phi.Comment, "range") {
+						if v, has := st.env[phi]; has {
+							return v
+						}
+					}
+				}
+			}
+		}
+		bail("iter(%d): no range counter available here", k)
 	case "implies":
 		return Sc{T: mkImplies(x.asBool(arg(0)), x.asBool(arg(1)))}
 	case "iff":
